@@ -29,6 +29,8 @@ Scenarios ==
   {Honest, CA, With("verify", FALSE)} \cup
   {With("signCert", k) : k \in CertKinds \ {"good"}} \cup
   {With("encCert", k) : k \in CertKinds \ {"good"}} \cup
+  \* both certificates from a CA the client does not trust, the CA's own certificate appended to the message
+  {With2("signCert", "untrusted", "encCert", "untrusted_with_ca")} \cup
   {With("signKey", "wrong"), With("encKey", "wrong")} \cup
   {With("ske", k) : k \in {"omitted", "otherrandoms", "otherenccert", "badsig"}} \cup
   \* a recorded ServerKeyExchange replayed in a session that shares ONE of the two randoms with the recorded one (the
